@@ -51,4 +51,13 @@ Section VerletModel.
 
   Definition verlet_update (p v f : nat -> V) (taup tauv : nat -> option V) :=
     verlet_loop (vgather_pos (p 0) (v 0) f taup) (vgather_vel (v 0) f tauv) (seq 1 M) (p, v, f).
+
+  (* compute_end_point(): copy of the last node, or the full Picard evaluation with the weights and qQ (+ tau[-1]) *)
+  Variable weights qQ : nat -> K.             (* coll.weights[m-1], sweeper.qQ[m-1], m = 1..M *)
+  Definition verlet_end_point (right_is_node do_coll_update : bool) (p v f : nat -> V) (taup tauv : nat -> option V) : V * V :=
+    if right_is_node && negb do_coll_update then (p M, v M)
+    else
+      let ep := accum kadd (p 0) 1 M (fun m => (kmul dt (kmul dt (qQ m))) *v f m +v (kmul dt (weights m)) *v v 0) in
+      let ev := accum kadd (v 0) 1 M (fun m => (kmul dt (weights m)) *v f m) in
+      (match taup M with Some t => ep +v t | None => ep end, match tauv M with Some t => ev +v t | None => ev end).
 End VerletModel.
